@@ -44,7 +44,9 @@ Notation runM := (run lead cat_fix str_white resub_fix None false va_fix va_whol
 (* a function-like macro name (never scanned as a plain token in the fragments below) *)
 Definition is_fl (t : tok) : bool :=
   is_id t && match get_macro tb (tt t) with Some m => m_fun m | None => false end.
-Definition okt2 (t : tok) : bool := okt t && negb (is_fl t).
+(* [okt0]: not the identifier `defined`; the blue-paint flag may have either value *)
+Definition okt0 (t : tok) : bool := negb (is_id t && String.eqb (tt t) "defined").
+Definition okt2 (t : tok) : bool := okt0 t && negb (is_fl t).
 
 (* every macro is stored under its own name; object-like macros have lexer-made bodies
    that contain no function-like macro name *)
@@ -246,11 +248,12 @@ Definition scan_at (d : nat) : Prop :=
     exists n pre', somes pre' = somes pre ++ flat_map (E d ne) ts /\
                    forall f, runM (n + f) (st pre (ts ++ rest) p below ne) = runM f (st pre' rest p below ne).
 
-Lemma okt_inv t : okt t = true -> tx t = true /\ (is_id t = true -> is_txt "defined" t = false).
+Lemma okt_inv t : okt0 t = true -> is_id t = true -> is_txt "defined" t = false.
 Proof.
-  unfold okt, is_txt. rewrite andb_true_iff, negb_true_iff. intros [H1 H2]. split; [assumption|].
-  intros Hid. rewrite Hid in H2. exact H2.
+  unfold okt0, is_txt. rewrite negb_true_iff. intros H2 Hid. rewrite Hid in H2. exact H2.
 Qed.
+Lemma okt_okt0 t : okt t = true -> okt0 t = true.
+Proof. unfold okt, okt0. rewrite andb_true_iff. tauto. Qed.
 
 Lemma scan_step d : (forall d', d = S d' -> scan_at d') -> scan_at d.
 Proof.
@@ -258,7 +261,7 @@ Proof.
   - exists 0, pre. cbn [flat_map]. rewrite app_nil_r. split; [reflexivity|]. intros f. reflexivity.
   - cbn [forallb] in Hok. apply andb_true_iff in Hok. destruct Hok as [Hot Hor].
     unfold okt2 in Hot. apply andb_true_iff in Hot. destruct Hot as [Hot Hnfl]. apply negb_true_iff in Hnfl.
-    destruct (okt_inv t Hot) as [Hx Hdef].
+    pose proof (okt_inv t Hot) as Hdef.
     cbn [flat_map app]. rewrite E_eq.
     destruct (is_id t) eqn:Hid; cbn [negb].
     2:{ destruct (IHr rest (pre ++ [Some t]) p below ne Hor Hinv Hlev) as (n & pre' & Hs & Hrun).
@@ -280,7 +283,7 @@ Proof.
     assert (Hfun : m_fun m = false).
     { unfold is_fl in Hnfl. rewrite Hid, Hm in Hnfl. exact Hnfl. }
     specialize (Hbody Hfun).
-    rewrite Hx in Hh. cbn [negb orb] in Hh.
+    pose proof Hh as Hh0. apply orb_false_iff in Hh. destruct Hh as [Hx Hh]. apply negb_false_iff in Hx.
     destruct d as [|d'].
     { (* no budget: impossible *) rewrite (pigeon ne _ m Hinv Hm) in Hh. discriminate. }
     (* push the replacement list, scan it with budget d', pop, go on with r *)
@@ -295,7 +298,6 @@ Proof.
     + rewrite Hs2, somes_map_Some, Hs1. cbn [somes app]. now rewrite <- app_assoc.
     + intros f. replace (S (n1 + n2) + f) with (S (n1 + (n2 + f))) by lia.
       rewrite (R_macro _ pre t (r ++ rest) p below ne m); try assumption.
-      2:{ rewrite Hx. cbn [negb orb]. exact Hh. }
       2:{ lia. }
       rewrite Hrun1. rewrite (R_norm _ _ _ (norm_pop pre1 pre (r ++ rest) p below ne _)). apply Hrun2.
 Qed.
@@ -412,7 +414,7 @@ Proof.
         -- intros f. cbn [plus app]. rewrite R_defined1 by assumption. apply Hrun.
     + apply andb_true_iff in Hwf. destruct Hwf as [Hx Hwr]. apply andb_true_iff in Hx. destruct Hx as [Hx Hnfl].
       assert (Hok : forallb okt2 [t] = true).
-      { cbn [forallb]. unfold okt2, okt. rewrite Hx, Hnfl. unfold is_txt in Hd. rewrite Hd. reflexivity. }
+      { cbn [forallb]. unfold okt2, okt0. rewrite Hnfl. unfold is_txt in Hd. rewrite Hd. reflexivity. }
       destruct (scan_all d [t] (r ++ rest) pre p below ne Hok Hinv Hlev) as (n1 & pre1 & Hs1 & Hrun1).
       destruct (IH r rest pre1 p below ne) as (n2 & pre' & Hs2 & Hrun2); try assumption.
       { cbn in Hlen. lia. }
